@@ -55,9 +55,30 @@ package domain_matcher
 //@   dyncalls noeffect
 //@   modifies *
 //@   let inRange() = 0 <= bitIndex && bitIndex < len(n.toBuildTrie) && len(n.toBuildAc) == len(n.toBuildTrie) && len(n.regexp) == len(n.toBuildTrie)
+// every pattern of the list is looked at (a pattern with a bad character is skipped, it does not end the
+// walk); the trie keys of a pattern are "^d$" for full, ".d$" and "^d$" for a suffix written without a
+// leading dot, "d$" alone for one written with it; a keyword goes to the automaton as written
+//@   at call builtin:append#1 assert a0 == n.toBuildTrie[bitIndex] && typ == consts.RoutingDomainKey_Full && a1[0] == cat(cat("^", d), "$")
+//@   at call builtin:append#2 assert a0 == n.toBuildTrie[bitIndex] && typ == consts.RoutingDomainKey_Suffix && strings.HasPrefix(d, ".") && a1[0] == cat(d, "$")
+//@   at call builtin:append#3 assert a0 == n.toBuildTrie[bitIndex] && typ == consts.RoutingDomainKey_Suffix && !strings.HasPrefix(d, ".") && a1[0] == cat(cat(".", d), "$")
+//@   at call builtin:append#4 assert a0 == n.toBuildTrie[bitIndex] && typ == consts.RoutingDomainKey_Suffix && !strings.HasPrefix(d, ".") && a1[0] == cat(cat("^", d), "$")
+//@   at call builtin:append#5 assert a0 == n.toBuildAc[bitIndex] && typ == consts.RoutingDomainKey_Keyword
+//@   at call builtin:append#6 assert a0 == n.regexp[bitIndex] && typ == consts.RoutingDomainKey_Regex
+//@   at call regexp.Compile#1 assert a0 == d
 //@   loop 1
 //@     invariant inRange()
+//@     exit $idx == len(patterns)
 //@   loop 2
 //@     invariant inRange()
 //@   loop 3
 //@     invariant inRange()
+
+// Build, regex part: the per-set regex tables are walked to the end and every non-empty one is recorded
+// as valid (an empty set is skipped, it does not end the walk).
+//@ func (*AhocorasickSlimtrie).Build
+//@   anchorsonly
+//@   dyncalls noeffect
+//@   modifies *
+//@   at call builtin:append#1 assert a0 == n.validRegexpIndexes && a1[0] == i && len(n.regexp[i]) != 0
+//@   loop 1
+//@     exit $idx == len(n.regexp)
